@@ -59,7 +59,7 @@ class Inst(object):
     __slots__ = (
         "token", "tmpl", "vars", "n", "recv", "task", "started", "done", "awaiting", "syncing",
         "ctxs", "nyield", "parent", "outcome", "struct_paths", "depth", "closed", "nstep", "escaped",
-        "start_at", "done_at", "nc",
+        "start_at", "done_at", "nc", "yield_n0",
     )
 
     def __init__(self, token, tmpl, args, parent=None):
@@ -81,6 +81,7 @@ class Inst(object):
         self.closed = False
         self.escaped = None
         self.nc = 0
+        self.yield_n0 = 0
         self.start_at = None
         self.done_at = None
         self.depth = 0 if parent is None else parent.depth + 1
@@ -203,6 +204,7 @@ def _rec_err(inst, kind, e):
 def run_step(B, inst, st):
     op = st[0]
     if op == "y":
+        inst.yield_n0 = inst.n
         struct = build(B, inst, st[1])
         B.pre_yield(inst, struct)
         try:
